@@ -279,6 +279,31 @@ pub fn probe(func: &str) -> bool {
             let _ = Arc::ptr_eq(a.vars(), b2.vars());
         }
     }
+    // ---- Number container: Dual/Dual2 mixes must be refused (panic), both operand orders, every operator
+    {
+        use rateslib::dual::Number;
+        let (d2, _) = mk2(2.0, &["x", "y"], &[1.0, 4.0], &[2.0, 3.0, 3.0, 5.0]);
+        let (e2, _) = mk2(3.0, &["x"], &[2.0], &[0.0]);
+        let d1 = to1(&e2);
+        for order in 0..2 {
+            let (l, r) = if order == 0 { (Number::Dual(d1.clone()), Number::Dual2(d2.clone())) } else { (Number::Dual2(d2.clone()), Number::Dual(d1.clone())) };
+            let checks: Vec<(&str, bool)> = vec![
+                ("+", panic::catch_unwind(panic::AssertUnwindSafe(|| &l + &r)).is_err()),
+                ("-", panic::catch_unwind(panic::AssertUnwindSafe(|| &l - &r)).is_err()),
+                ("*", panic::catch_unwind(panic::AssertUnwindSafe(|| &l * &r)).is_err()),
+                ("/", panic::catch_unwind(panic::AssertUnwindSafe(|| &l / &r)).is_err()),
+                ("%", panic::catch_unwind(panic::AssertUnwindSafe(|| &l % &r)).is_err()),
+                ("==", panic::catch_unwind(panic::AssertUnwindSafe(|| l == r)).is_err()),
+                ("partial_cmp", panic::catch_unwind(panic::AssertUnwindSafe(|| l.partial_cmp(&r))).is_err()),
+            ];
+            for (op, refused) in checks {
+                if !refused {
+                    report("probe", func, &format!("Number::{} {} Number::{}", if order == 0 { "Dual(3, x:2)" } else { "Dual2(2, x:1, y:4, hess!=0)" }, op, if order == 0 { "Dual2(2, x:1, y:4, hess!=0)" } else { "Dual(3, x:2)" }), "a value was computed", "refusal (panic)", false);
+                    return true;
+                }
+            }
+        }
+    }
     // ---- gradient1_manifold (absent and present names)
     for (ia, a, ra) in &ops {
         let req = vec!["y".to_string(), "q_absent".to_string(), "x".to_string()];
